@@ -19,6 +19,7 @@ def plan(tier, seed):
     shards += [{"kind": "boundaries", "part": i, "parts": 8, "seed": seed} for i in range(8)]
     k = 60 if tier == "quick" else 1500
     shards += [{"kind": "random", "seed": seed, "shard": i, "n": 60} for i in range(k)]
+    shards += [{"kind": "mcp", "part": i, "parts": 4 if tier == "quick" else 1, "of": 4} for i in range(4)]
     return shards
 
 
@@ -202,8 +203,56 @@ def run_random(desc):
     return {"evaluations": n_eval, "nontrivial_hashes": hashes, "counters": cnt, "violations": viols[:20], "samples": []}
 
 
+def run_mcp(desc):
+    """explain_matching derives the tax year of a disposal by its own month/day test: every boundary-day disposal
+    (5 and 6 April) of the years taken by this shard must be found and explained in the right year; the server runs
+    in a cwd whose config.toml extends the exemption table to 1900-2100."""
+    import json
+    from ..gen.ledger import render_dsl
+    from ..mcpdrv import Session, call, check_history
+    cnt = Counter()
+    viols = []
+    hashes = set()
+    years = [Y for Y in range(1900, 2101) if Y % desc["of"] == desc["part"]]
+    if desc["parts"] > 1:
+        years = years[::3] + [1900, 2100] if desc["part"] == 0 else years[::3]
+    sess = Session()
+    reqs = []
+    rid = 0
+    for Y in sorted(set(years)):
+        txs, want = boundary_ledger(Y, dt.date(Y, 7, 1))
+        text = render_dsl(txs)
+        for d_, ty in want.items():
+            rid += 1
+            reqs.append((call(rid, "explain_matching", {"transactions": text, "disposal_date": d_, "ticker": "b"}), d_, ty))
+    for j in range(0, len(reqs), 16):
+        sess.send([r for r, _, _ in reqs[j:j + 16]])
+    sess.wait_for([r["id"] for r, _, _ in reqs], 180)
+    end = sess.finish()
+    hv, stats, resp = check_history(sess, end)
+    for name, detail in hv:
+        viols.append({"clause": "mcp-" + name, "signature": "mcp-" + name, "detail": detail, "case": {"op": "mcp"}})
+    for r, d_, ty in reqs:
+        a = resp.get(Session.idkey(r["id"]))
+        if a is None:
+            continue
+        cnt["mcp_boundary_disposals_queried"] += 1
+        hashes.add(d_)
+        try:
+            e = json.loads(a["result"]["content"][0]["text"])
+            ok = e["disposal_date"] == d_ and e["quantity"] == "10"
+        except Exception:
+            ok = False
+        if not ok:
+            viols.append({"clause": "mcp-explain-misses-boundary-day-disposal", "signature": "mcp-explain-misses-boundary-day-disposal",
+                          "detail": f"{d_} (tax year {ty}): {json.dumps(a)[:200]}", "case": {"op": "mcp-request", "request": r}})
+        else:
+            cnt["mcp_boundary_disposals_explained"] += 1
+    return {"evaluations": len(reqs), "nontrivial_hashes": hashes, "counters": cnt, "violations": viols[:20], "samples": []}
+
+
 def run_shard(desc):
-    return {"dates": run_dates, "boundaries": run_boundaries, "random": run_random}[desc["kind"]](desc)
+    return {"dates": run_dates, "boundaries": run_boundaries, "random": run_random, "mcp": run_mcp}[desc["kind"]](desc)
 
 
 def replay(case):
@@ -230,7 +279,8 @@ def finalize(total, tier, seed):
     ]
 
 
-THRESHOLDS = {"dates_in_range": 73414, "boundary_years": 201, "year_filters": 1500, "filters_on_years_without_disposals": 100}
+THRESHOLDS = {"dates_in_range": 73414, "boundary_years": 201, "year_filters": 1500, "filters_on_years_without_disposals": 100,
+              "mcp_boundary_disposals_explained": 200}
 RULE = ("exhaustive date enumeration + all 201 year boundaries + seeded multi-year ledgers (years 1900-2100) x every "
         "year filter in range; slice equality is exact (Decimal ==); distinct = dates enumerated + boundary years + "
         "distinct random ledgers")
